@@ -35,6 +35,7 @@ def _classes():
 
 
 CLS = _classes()
+LONG = [23, 24, 24, 25, 25, 30, 30, 256]     # collection sizes around the CBOR head-width boundaries
 INTS = [0, 1, 23, 24, 255, 256, 65535, 65536, 2**32 - 1, 2**32, 2**63 - 1, 2**64 - 1]
 
 
@@ -210,11 +211,18 @@ class Gen:
             return self.obj(t[1], depth)
         if k == "list":
             n = 0 if depth <= 0 else rng.choice([0, 1, 2, 3])
+            if depth > 0 and rng.random() < 0.02:
+                n = rng.choice(LONG)          # lengths that do not fit the initial byte of the CBOR head
+                self.hit("long-list")
+                return [self.value(t[1], 0 if depth <= 1 else 1) for _ in range(n)]
             return [self.value(t[1], depth - 1) for _ in range(n)]
         if k == "oset":
             n = rng.choice([1, 2, 3]) if (t[2] or depth > 0) else 0
             if depth <= 0:
                 n = 1 if t[2] else 0
+            elif rng.random() < 0.02:
+                n = rng.choice(LONG)
+                self.hit("long-set")
             items = [self.value(t[1], depth - 1) for _ in range(n)]
             c = NonEmptyOrderedSet if t[2] else OrderedSet
             s = c(items, use_tag=rng.random() < 0.7)
@@ -249,7 +257,11 @@ class Gen:
             return rng.choice(list(c))
         if d["kind"] == "dict":
             x = c()
-            for _ in range(0 if depth <= 0 else rng.choice([0, 1, 2, 3])):
+            n = 0 if depth <= 0 else rng.choice([0, 1, 2, 3])
+            if depth > 0 and rng.random() < 0.02:
+                n = rng.choice(LONG)
+                self.hit("long-dict")
+            for _ in range(n):
                 x[self.value(d["key_type"], depth - 1)] = self.value(d["value_type"], depth - 1)
             return x
         if d["kind"] in ("array", "map", "coded"):
